@@ -63,6 +63,9 @@ func c10classes() []c10class {
 		{"mixed-output-errors", mod(func(c *Cfg) { c.Services[0].Args = []any{"@a", "%nope%", "@gone"} }), nil, false},
 		{"version-mismatch", mod(func(c *Cfg) { c.Version = P("9.9.9") }), nil, false},
 		{"matched-twice", one(c10valid()), func(fs []File) []string { return []string{"-i", "c.yaml", "-i", "c*.yaml"} }, false},
+		{"matched-twice-dot-slash", one(c10valid()), func(fs []File) []string { return []string{"-i", "c.yaml", "-i", "./c.yaml"} }, false},
+		{"matched-twice-dirty-path", func() []File { return []File{{"c.yaml", c10valid().YAML()}, {"sub/keep", ""}} }, func(fs []File) []string { return []string{"-i", "sub/../c.yaml", "-i", "c.yaml"} }, false},
+		{"matched-twice-glob-and-dirty", one(c10valid()), func(fs []File) []string { return []string{"-i", ".//c.yaml", "-i", "?.yaml"} }, false},
 		{"missing-input", one(c10valid()), func(fs []File) []string { return []string{"-i", "c.yaml", "-i", "nope.yaml"} }, true},
 		{"only-missing-input", one(c10valid()), func(fs []File) []string { return []string{"-i", "nope.yaml"} }, false},
 		{"empty-glob", one(c10valid()), func(fs []File) []string { return []string{"-i", "zz*.yaml"} }, false},
@@ -209,7 +212,7 @@ func init() {
 	Register(&Check{
 		ID:    "C10",
 		Level: "fault_enumeration",
-		Rule: "20 configuration / environment classes (valid, two files, YAML error, shape error, grammar error(s), token errors, formatter error, missing parameter / service, cycle, scope, mixed output errors, version mismatch, file matched twice, missing input, only missing input, empty glob, invalid glob, input is a directory) x all 16 flag combinations (quiet, stub, ignore-missing-params, ignore-missing-services) x 5 output pre-states (absent, existing file with old mtime and 0600, directory, missing parent, same path as an input) " +
+		Rule: "20 configuration / environment classes (valid, two files, YAML error, shape error, grammar error(s), token errors, formatter error, missing parameter / service, cycle, scope, mixed output errors, version mismatch, file matched twice (same spelling, ./ prefix, dirty path, glob + dirty path), missing input, only missing input, empty glob, invalid glob, input is a directory) x all 16 flag combinations (quiet, stub, ignore-missing-params, ignore-missing-services) x 5 output pre-states (absent, existing file with old mtime and 0600, directory, missing parent, same path as an input) " +
 			"x injected file-system answers at every os.ReadFile / os.WriteFile / filepath.Glob call of internal/cmd/runner (EACCES, EIO, ErrBadPattern): all executions with <= 1 injected answer (quick) / <= 2 (thorough); plus the real binary's exit status for one representative of every class. non-trivial = a failure class, a non-absent pre-state or an injected fault; distinct = distinct (class, flags, pre-state, fault plan)",
 		Assumptions: []string{
 			"file-system answers are injected with go build -overlay (os.ReadFile, os.WriteFile, filepath.Glob in internal/cmd/runner rewritten to a shim); a write that fails after truncation is outside the statement's fault list and not injected",
